@@ -35,6 +35,17 @@ def check(ctx, cfg):
     r3(ctx, cfg)
     r4(ctx, cfg)
     r5(ctx, cfg)
+    r6(ctx, cfg)
+
+
+def r6(ctx, cfg):
+    """"pays exactly the pending reward shown ... and mints nothing else": shown and paid amounts and the denomination they are
+    minted in come from the staking module's own records - every read and write of a staking / distribution item goes to a
+    view of that module's namespace, and a helper reached from several places sees the same namespace from all of them (the
+    C08.R3 store-discipline obligations for staking.rs under C15's id; a lookup under the wrong namespace silently yields
+    the default parameters)"""
+    from rules import C08
+    C08.r3(ctx, cfg, R="C15.R6", files=("src/staking.rs",), floor=37)
 
 
 def r5(ctx, cfg):
